@@ -237,12 +237,12 @@ def shard_fn(shard, nshards, seed, tier, exe, nconf, nrob):
     cases, meta = [], {}
     n = 0
 
-    def add_case(doc, patch, kind):
+    def add_case(doc, patch, kind, raw=None):
         nonlocal n
         cid = "%d.%d" % (shard, n)
         n += 1
         mode = rng.randrange(2)
-        dt, pt = encode(doc), encode(patch)
+        dt, pt = encode(doc), (raw if raw is not None else encode(patch))
         cmds = ["P 0 64 1 x%s 0" % dt.hex(), "P 0 64 1 x%s 1" % pt.hex(), "D 1"]
         if mode == 0:
             cmds += ["PATCH 0 1 0", "D 0", "D 1", "PUT 0", "PUT 1"]
@@ -256,6 +256,13 @@ def shard_fn(shard, nshards, seed, tier, exe, nconf, nrob):
             if k["property"] == PID and k.get("witness_patch"):
                 w = k["witness_patch"]
                 add_case(refjson.parse(w["doc"].encode()), refjson.parse(w["patch"].encode()), "listed")
+    # patches given as raw text: duplicate members (the last one counts), escaped spellings of member names and op names
+    RAW = [b'[{"op":"add","path":"/a","path":"/b","value":1}]', b'[{"op":"remove","op":"add","path":"/q","value":[1]}]', b'[{"\\u006fp":"\\u0061dd","p\\u0061th":"/z","value":null}]',
+           b'[{"op":"add","path":"/a","value":1,"value":{"v":[2]}},{"op":"add","path":"/a/v/-","value":3}]', b'[{"op":"test","path":"","value":{},"value":{"a":1}}]',
+           b'[{"op":"copy","from":"/a","from":"","path":"/c"}]', b'[{"op":"move","path":"/m","from":"/a"},{"op":"test","path":"/m","value":1}]', b'[ {"op":"add", "path":"/e\\u002ff", "value":"x"} ]',
+           b'[{"op":"add","path":"/a~1b","value":1},{"op":"replace","path":"/a~1b","value":[]},{"op":"add","path":"/a~1b/0","value":{}}]']
+    for raw in RAW:
+        add_case({b"a": 1}, refjson.parse(raw), "raw-text", raw=raw)
     for _ in range(nconf // nshards):
         doc = gen_value(rng)
         while not isinstance(doc, (list, dict)):
